@@ -160,14 +160,37 @@ struct C03 : Scenario {
         // add up over the period; k = RF phase per natural bunch length
         const double krf = d.bl / 2.99792458e8 * d.f_RF * 2 * M_PI;
         double nl = cfg.linearRF ? 0 : 3 * 2 * M_PI * c0 * std::pow(krf * (c0 + std::max(b.s1, b.s2)), 2) / 6 + 1e-3 * c0;
+        // Sinusoidal RF: the recurrence model transports the authored start distribution itself (every grid point a weighted
+        // particle) through the kick p += A (sin(k q + phi_s) - sin phi_s), A = T_step/T_rev * V_RF / (sigma_E E_0), and the drift
+        // q -= theta p, in double. Nonlinearity, the synchronous phase (focusing ~ cos phi_s, asymmetric potential) and the shape of
+        // the blob are then part of the model instead of a slack (found by the thorough tier: a 0.4 % effect of phi_s exceeded it).
+        std::vector<double> MQ(N + 1, 0.0), MP(N + 1, 0.0);
+        if (!cfg.linearRF) {
+            const double A = d.revolutionpart * cfg.VRF / d.dE, phis = std::asin(d.V0 / cfg.VRF);
+            std::vector<double> eq, ep, ew;
+            double wmax = 0; for (float v : data) wmax = std::max(wmax, (double)v);
+            double sw = 0, cq = 0, cp = 0;
+            for (unsigned x = 0; x < n; x++) for (unsigned y = 0; y < n; y++) { double w = data[(size_t)x * n + y]; if (w < 1e-7 * wmax) continue; eq.push_back(d.q(x)); ep.push_back(d.p(y)); ew.push_back(w); sw += w; cq += w * d.q(x); cp += w * d.p(y); }
+            cq /= sw; cp /= sw;
+            for (size_t i = 0; i < eq.size(); i++) { eq[i] += Q[0] - cq; ep[i] += P[0] - cp; }     // start from the recorded centroid
+            MQ[0] = Q[0]; MP[0] = P[0];
+            for (unsigned k = 1; k <= N; k++) {
+                double aq = 0, ap = 0;
+                for (size_t i = 0; i < eq.size(); i++) { ep[i] += A * (std::sin(krf * eq[i] + phis) - std::sin(phis)); eq[i] -= theta * ep[i]; aq += ew[i] * eq[i]; ap += ew[i] * ep[i]; }
+                MQ[k] = aq / sw; MP[k] = ap / sw;
+            }
+            nl = 2e-4 * c0;
+            o.hints["slope"] = fmt_g(A * krf * std::cos(phis) / theta, 8);
+        }
         {   // statistics over the whole history (independent of where a clause fails first)
             double aq = Q[0], ap = P[0];
-            for (unsigned k = 1; k <= N; k++) { ap = ap + kick * aq; aq = aq - theta * ap; maxdev = std::max(maxdev, std::hypot(Q[k] - aq, P[k] - ap)); }
+            for (unsigned k = 1; k <= N; k++) { ap = ap + kick * aq; aq = aq - theta * ap; if (!cfg.linearRF) { aq = MQ[k]; ap = MP[k]; } maxdev = std::max(maxdev, std::hypot(Q[k] - aq, P[k] - ap)); }
         }
         for (unsigned k = 1; k <= N; k++) {
             o.checks++;
             mp = mp + kick * mq;
             mq = mq - theta * mp;
+            if (!cfg.linearRF) { mq = MQ[k]; mp = MP[k]; }
             double dev = std::hypot(Q[k] - mq, P[k] - mp);
             maxdev = std::max(maxdev, dev);
             if (dev > tau + nl) { o.hints["step"] = std::to_string(k); o.fail("C03.kick_drift_recurrence", "step " + std::to_string(k) + ": centroid (" + fmt_g(Q[k], 7) + "," + fmt_g(P[k], 7) + ") but kick p+=tan(theta)q, drift q-=theta p from the first record gives (" + fmt_g(mq, 7) + "," + fmt_g(mp, 7) + "); deviation " + fmt_g(dev, 3) + " > " + fmt_g(tau + nl, 3) + ctx); break; }
@@ -198,7 +221,7 @@ struct C03 : Scenario {
         if (n % 2) o.probe("reach.odd_grid");
         o.simperiods = o.simsteps / d.steps;
         o.nontrivial = true;
-        o.sample = ctx + " maxdev/delta=" + fmt_g(maxdev / delta, 4) + " maxdev=" + fmt_g(maxdev, 4) + " maxrot/(theta*c0)=" + fmt_g(maxdevr / (theta * c0), 4);
+        o.sample = ctx + " maxdev/delta=" + fmt_g(maxdev / delta, 4) + " maxdev=" + fmt_g(maxdev, 4) + " maxrot/(theta*c0)=" + fmt_g(maxdevr / (theta * c0), 4) + (o.hints.count("slope") ? " slope/theta=" + o.hints["slope"] : "");
         return o;
     }
 
